@@ -75,12 +75,15 @@ Modes == {"sync", "async"}
 
 Base == [mode |-> "sync", kind |-> "resp", status |-> 101, upg |-> "ok", acc |-> "ok",
          ord |-> "canon", hcase |-> "canon", ws |-> "canon", xh |-> "none", long |-> 0,
-         cuts |-> <<>>, piggy |-> "none", closept |-> "none", tail |-> "none", xreq |-> 0]
+         cuts |-> <<>>, piggy |-> "none", closept |-> "none", tail |-> "none", xreq |-> 0,
+         sl |-> "canon"]
 
 NoP == [Base EXCEPT !.kind = "idle"]
 
 \* ---- layout of the response (real byte lengths) ----
-StatusLen(q) == CASE q.status = 101 -> 34    \* "HTTP/1.1 101 Switching Protocols\r\n"
+StatusLen(q) == CASE q.status = 101 /\ q.sl = "noreason" -> 14   \* "HTTP/1.1 101\r\n"
+                  [] q.status = 101 /\ q.sl = "custom" -> 44     \* "HTTP/1.1 101 Web Socket Protocol Handshake\r\n"
+                  [] q.status = 101 -> 34    \* "HTTP/1.1 101 Switching Protocols\r\n"
                   [] q.status = 200 -> 17    \* "HTTP/1.1 200 OK\r\n"
                   [] OTHER          -> 26    \* "HTTP/1.1 400 Bad Request\r\n"
 
@@ -114,7 +117,9 @@ SumDump(q, hs, k) == IF k = 0 THEN 0 ELSE DumpLen(q, hs[k]) + SumDump(q, hs, k -
 \* length of the response on the wire, blank line included
 R(q) == StatusLen(q) + SumLine(q, Hdrs(q), Len(Hdrs(q))) + 2
 \* len(DumpResponse) - R for a 101 response
+\* (a status line without reason phrase is re-serialised as "HTTP/1.1 101 101")
 D(q) == SumDump(q, Hdrs(q), Len(Hdrs(q))) - SumLine(q, Hdrs(q), Len(Hdrs(q)))
+        + (IF q.sl = "noreason" THEN 4 ELSE 0)
 
 \* ---- frames after the blank line ----
 F1Len(q) == IF q.piggy = "big" THEN 1504 ELSE 7     \* text, 1500 / 5 payload bytes
@@ -159,6 +164,7 @@ Feat(q) ==
   ELSE IF Len(q.cuts) > 0 THEN "segmented"
   ELSE IF q.ws # "canon" THEN "whitespace"
   ELSE IF q.xh # "none" THEN "headers"
+  ELSE IF q.sl # "canon" THEN "statusline"
   ELSE IF q.hcase # "canon" THEN "case"
   ELSE IF q.ord # "canon" THEN "order"
   ELSE IF q.piggy # "none" THEN "piggyback"
@@ -205,19 +211,31 @@ ProfClose ==
   \cup {WithCuts([Base EXCEPT !.mode = m, !.closept = c], <<MkCut(Base, k)>>) :
           m \in Modes, c \in {"midresp", "afterresp"}, k \in {"sl-mid", "h1-val", "h1-crlf", "hl-end", "bl-crlf"}}
 
+ProfStatusLine ==
+  LET B == {[Base EXCEPT !.mode = m, !.sl = l, !.ws = w, !.piggy = g] :
+              m \in Modes, l \in {"noreason", "custom"}, w \in {"canon", "none"}, g \in {"none", "whole", "two"}}
+  IN B \cup {WithCuts(q, <<MkCut(q, c)>>) : q \in B, c \in {"sl-mid", "sl-crlf", "bl-after"}}
+
+\* the server goes away inside a piggy-backed frame
+ProfMidFrame ==
+  LET B == {[Base EXCEPT !.mode = m, !.piggy = "partial", !.closept = "midframe", !.ws = w] :
+              m \in Modes, w \in {"canon", "none", "wide"}}
+  IN B \cup {WithCuts(q, <<MkCut(q, c)>>) : q \in B, c \in {"hl-end", "bl-after", "f-hdr"}}
+
 ProfTail ==
   {[Base EXCEPT !.mode = m, !.tail = t, !.piggy = g] :
      m \in Modes, t \in {"ping", "close"}, g \in {"none", "whole", "two"}}
 
 ProfBadUrl == {[Base EXCEPT !.mode = m, !.kind = "badurl"] : m \in Modes}
 
-Prof1 == ProfVerdict \cup ProfShape \cup ProfReq \cup ProfSeg \cup ProfClose \cup ProfTail \cup ProfBadUrl
+Prof1 == ProfVerdict \cup ProfShape \cup ProfReq \cup {q \in ProfStatusLine \cup ProfMidFrame : SegOK(q)}
+         \cup ProfSeg \cup ProfClose \cup ProfTail \cup ProfBadUrl
 
 \* rounds after the first: a handshake on a stream that was used before
 Prof2 ==
   {[Base EXCEPT !.mode = m, !.piggy = g] : m \in Modes, g \in {"none", "whole"}}
   \cup {[Base EXCEPT !.mode = m, !.status = 400] : m \in Modes}
-  \cup {[Base EXCEPT !.mode = m, !.acc = "wrong"] : m \in Modes}
+  \cup {[Base EXCEPT !.mode = m, !.acc = a] : m \in Modes, a \in {"wrong", "stale"}}   \* stale: right for the previous key
   \cup {[Base EXCEPT !.mode = m, !.closept = "noresp"] : m \in Modes}
   \cup {[Base EXCEPT !.mode = m, !.tail = "ping", !.piggy = "whole"] : m \in Modes}
   \cup {WithCuts([Base EXCEPT !.mode = m, !.ws = "none", !.piggy = "whole"],
